@@ -38,15 +38,19 @@ def run_case(ctx, rep, spec, cn, posname, pos, fields, limit, model, path=None, 
     out = ctx.newdir("c16o_")
     case = {"spec": spec, "normal": cn, "posname": posname, "pos": pos, "fields": fields, "limit": limit, "big": big, "how": how}
     rep.count("how:" + how)
+    # the pseudo field of the array formats may be named in the request: the written plotfile holds the real fields asked for
+    req = list(fields)
+    fields = [f for f in req if f != "grid_level"]
+    if len(req) != len(fields): rep.count("grid_level-in-request")
     rep.case({"s": spec, "n": cn, "p": pos, "f": fields, "l": limit, "how": how}, nontrivial=(nlev >= 2 or not posname.startswith("L0:centre")))
     rep.count("pos:" + posname.split(":")[-1]); rep.count(f"normal:{cn}")
     try:
         with alarm(300), quiet(), geom.tainted_empty(), pools.controlled():
             if how == "cli":
                 from .. import tools
-                tools.mandoline_cli(path, "plotfile", out, fields, cn, pos, limit, serial=True)
+                tools.mandoline_cli(path, "plotfile", out, req, cn, pos, limit, serial=True)
             else:
-                Mandoline(path, fields=(fields[0] if how == "str" and len(fields) == 1 else fields), limit_level=limit, serial=True,
+                Mandoline(path, fields=(req[0] if how == "str" and len(req) == 1 else req), limit_level=limit, serial=True,
                           verbose=0).slice(normal=cn, pos=pos, outfile=out, fformat="plotfile")
     except SystemExit as e:
         rep.fail(f"the mandoline console script exited ({e.code}) on a valid invocation", case); return
@@ -138,6 +142,18 @@ def run_case(ctx, rep, spec, cn, posname, pos, fields, limit, model, path=None, 
         else:
             rep.agree(); rep.count("header-theorem-applies")
     if model and not bad:
+        # which boxes are listed, against the Lean model of the selection test (C16.each_box_once)
+        reqs = []
+        for lv in range(L + 1):
+            d = spec["dx0"][cn] / 2 ** lv; g = spec["geo_low"][cn]
+            reqs.append({"op": "meets", "G": c07.J(G[cn]), "pos": c07.J(pos),
+                         "boxes": [[c07.J(g + b[0][cn] * d), c07.J(g + (b[1][cn] + 1) * d)] for b in spec["levels"][lv]]})
+        for lv, m in enumerate(leanio.driver(reqs)):
+            sel = sorted([[b[0][cx], b[0][cy]], [b[1][cx], b[1][cy]]] for b, f in zip(spec["levels"][lv], m.get("meets", [])) if f)
+            if sel == sorted([lo, hi] for lo, hi in Q["levels"][lv]["idx"]):
+                rep.agree()
+            else:
+                rep.tie("the boxes listed at a level are not those the Lean selection test picks", dict(case, level=lv), {"model": sel})
         # distribution of the boxes over binary files against the Lean chunking model
         reqs = []
         for lv in range(L + 1):
@@ -184,10 +200,14 @@ def run(ctx, rep, model=True):
             plist = [(nm, p) for nm, p in c07.positions(spec, cn, ctx.rng, n_extra=2) if p is not None and g <= p <= G]
             if ctx.quick and len(plist) > 10:
                 head, rest = plist[:4], plist[4:]
-                ctx.rng.shuffle(rest)
-                plist = head + rest[:6]
+                # planes exactly on box faces decide which boxes are met: all of them on meshes whose numbers are not dyadic
+                faces = [x for x in rest if x[0].endswith(":box-face")]
+                others = [x for x in rest if not x[0].endswith(":box-face")]
+                ctx.rng.shuffle(others); ctx.rng.shuffle(faces)
+                faces = faces if not c07.dyadic(spec) else faces[:2]
+                plist = head + faces + others[:max(3, 6 - len(faces))]
             for j, (nm, pos) in enumerate(plist):
-                fields = [[names[0]], [names[1], names[0]], [names[1]]][j % 3]
+                fields = [[names[0]], [names[1], names[0]], [names[1]], [names[0], "grid_level"], ["grid_level", names[1], names[0]]][j % 5]
                 limit = [None, nlev - 1, 0, None][j % 4]
                 how = ["api", "cli", "str", "api", "cli", "api"][j % 6] if len(fields) == 1 or j % 6 != 2 else "api"
                 if limit == 0 and nlev >= 2 and (i + j) % 2 == 0:
